@@ -15,7 +15,8 @@ structure St where
   pad0 : Nat := 0
   pad1 : Nat := 0
   bld : Bool := false
-  nodes : List (Node × Option Str) := []
+  nodes : List (Node × Option Str × Nat) := []
+  pos : Nat := 0
 
 def splitOnChar (c : Char) (s : String) : List String := (s.splitOn (String.singleton c))
 
@@ -103,6 +104,8 @@ def parseNode (ws : List String) : Option (Node × Option Str) :=
   | ["align", mode, n] => do let m ← mode.toNat?; let n ← n.toNat?; some (.align m n, none)
   | ["embed", size, count, rep] => do let a ← size.toNat?; let b ← count.toNat?; let c ← rep.toNat?; some (.embedData a b c, none)
   | ["comment", t] => (hexToStr? t).map fun t => (.comment t, none)
+  | ["elabel", id] => id.toNat?.map fun i => (.embedLabel i, none)
+  | ["edelta", id, b] => do let i ← id.toNat?; let b ← b.toNat?; some (.embedLabelDelta i b, none)
   | _ => none
 
 def verdict (b : Bool) (why : String) : String := if b then "good" else "BAD " ++ why
@@ -117,7 +120,7 @@ def step (st : St) (line : String) : St × String :=
     | some a, "asm" => ({ env := { arch := a, labels := some [], vregs := none }, inited := true : St }, "ok")
     | some a, "comp" => ({ env := { arch := a, labels := some [], vregs := some [] }, inited := true : St }, "ok")
     | some a, "bld" => ({ env := { arch := a, labels := some [], vregs := none }, inited := true, bld := true,
-                          nodes := [(.section ".text".toList, none)] : St }, "ok")
+                          nodes := [(.section ".text".toList, none, 0)] : St }, "ok")
     | _, _ => bad
   | ["num", k, v, base, width, fl] =>
     match parseHex? v, base.toNat?, width.toNat?, fl.toNat? with
@@ -170,11 +173,12 @@ def step (st : St) (line : String) : St × String :=
     match parseOperand o with
     | some o => (st, "=" ++ escape (formatOperand st.flags st.env o))
     | none => bad
+  | ["pos", n] => (match n.toNat? with | some n => ({ st with pos := n }, "ok") | none => bad)
   | ["nodelist"] => (st, "=" ++ escape (formatNodeList st.flags st.env st.pad0 st.nodes))
   | "node" :: rest =>
     match parseNode rest with
     | some (n, inl) =>
-      ({ st with nodes := st.nodes ++ [(n, inl)] }, "=" ++ escape (formatNode st.flags st.env st.pad0 n inl))
+      ({ st with nodes := st.nodes ++ [(n, inl, st.pos)], pos := 0 }, "=" ++ escape (formatNode st.flags st.env st.pad0 n inl st.pos))
     | none => bad
   | "inst" :: id :: opts :: extra :: ops =>
     match id.toNat?, parseHex? opts, parseExtra extra, ops.mapM parseOperand with
@@ -204,10 +208,10 @@ def step (st : St) (line : String) : St × String :=
       | some id, some opts, some extra, some ops =>
         (st, verdict (monInstruction st.env st.flags id opts extra ops [] text) "instruction-text-does-not-denote-the-instruction")
       | _, _, _, _ => bad
-    | "mon_node" :: rest =>
-      match parseNode rest with
-      | some (n, inl) => (st, verdict (monNode st.env st.flags n inl text) "node-text-does-not-denote-the-node")
-      | none => bad
+    | "mon_node" :: pos :: rest =>
+      match pos.toNat?, parseNode rest with
+      | some pos, some (n, inl) => (st, verdict (monNode st.env st.flags n inl text pos) "node-text-does-not-denote-the-node")
+      | _, _ => bad
     | "mon_emit" :: id :: opts :: extra :: comment :: bytes :: ops =>
       match id.toNat?, parseHex? opts, parseExtra extra, optComment comment, hexToNats? bytes, ops.mapM parseOperand with
       | some id, some opts, some extra, some comment, some bytes, some ops =>
